@@ -129,6 +129,15 @@ func (propC05) Gen(seed uint64, tier string, idx int) *Plan {
 		}
 		p.Ops = append(p.Ops, op)
 	}
+	if r.Chance(400) {
+		// overlapping failures with adversarial pool hand-over: an error answer must be the caller's own
+		p.Yields = map[string]int64{"pool.put": int64(2 * time.Millisecond)}
+		for i := range p.Ops {
+			if !longRun && mode != "all-blackhole" && mode != "all-refuse" && mode != "all-rst" {
+				p.Ops[i].At = r.Dur(0, 2*time.Millisecond)
+			}
+		}
+	}
 	p.Deadline = 90 * time.Second
 	p.Settle = 50 * time.Millisecond
 	return p
@@ -186,6 +195,12 @@ func (propC05) Check(r *Run) []Violation {
 			// every fault in this workload is fail-fast or bounded by the 2 s connect / 3 s read timeouts;
 			// a response that has started but is still open 25 simulated seconds later never ends
 			add("C05/response-never-completed", "status %d after %s but the response was still open at the %s deadline (%d body bytes so far, backend answered: %v)", c.Status, c.FirstByteAt-c.StartAt, op.Deadline, c.BodyLen, answered != nil)
+			continue
+		}
+		if c.Status != 0 && c.BodyErr != "" && c.Aborted == "" {
+			// Olla's answer must be a complete HTTP response: a body that ends early or not at all leaves
+			// the caller with a status line and a broken connection instead of an error it can read
+			add("C05/response-broken", "status %d but the body could not be read to its end: %s (%d bytes arrived, Content-Length %q)", c.Status, c.BodyErr, c.BodyLen, c.Header.Get("Content-Length"))
 			continue
 		}
 		if c.Status == 0 {
